@@ -78,7 +78,16 @@ def regen_constants():
     if not m:
         raise RuntimeError("C13 constants translator: cluster.setupWatch not found in registry.go")
     setup_creates = "newWatchValue()" in m.group(0)
-    regen_constants.flags = {"reload_outside": reload_outside, "done_bound": has_param, "setup_creates": setup_creates}
+    # Registry.Monitor on a watched key: are the known values replayed to the joiner with the cluster lock held
+    # (a join is atomic w.r.t. the dispatch of events) or after releasing it (getCurrent: finding
+    # C13/join-replay-overtakes-event)?
+    m = re.search(r"func \(r \*Registry\) Monitor\(.*?\n}\n", rsrc, re.S)
+    if not m:
+        raise RuntimeError("C13 constants translator: Registry.Monitor not found in registry.go")
+    mb = m.group(0)
+    join_atomic = "getCurrent(" not in mb and ".join(" not in mb and "l.OnAdd(" in mb and mb.find("l.OnAdd(") < mb.find("c.lock.Unlock()")
+    regen_constants.flags = {"reload_outside": reload_outside, "done_bound": has_param, "setup_creates": setup_creates,
+                             "join_atomic": join_atomic}
     text = "\n".join(["(* GENERATED by tools/props/c13.py from zrpc/resolver/internal/resolver.go,",
                       "   zrpc/resolver/internal/kube/eventhandler.go and core/discov/internal/registry.go of the checked",
                       "   tree at every run - do not edit. *)",
@@ -90,7 +99,9 @@ def regen_constants():
                       "(* watchStream selects on the done channel of its own watch generation (a parameter), not on the field c.done *)",
                       "Definition gen_watchDoneBoundToGeneration : bool := %s." % cbool(has_param),
                       "(* setupWatch never creates a watcher for a key that is not monitored (any more) *)",
-                      "Definition gen_setupWatchNeverCreatesWatcher : bool := %s." % cbool(not setup_creates), ""])
+                      "Definition gen_setupWatchNeverCreatesWatcher : bool := %s." % cbool(not setup_creates),
+                      "(* Registry.Monitor replays the known values to a joining listener with the cluster lock held *)",
+                      "Definition gen_joinReplaysUnderLock : bool := %s." % cbool(join_atomic), ""])
     val = (val, replaces)
     path = os.path.join(vlib.COQ, "gen", "C13Consts.v")
     os.makedirs(os.path.dirname(path), exist_ok=True)
@@ -170,6 +181,21 @@ class ClusterView:
                     rev += 1
                     del store[op[1]]
                     muts.append((rev, "del", op[1], ""))
+            if name in ("subj", "spyj"):
+                # registrations made while the joiner is being handed the known values
+                for m in (op[4] if name == "subj" else op[2]):
+                    if m[0] == "put":
+                        rev += 1
+                        store[m[1]] = m[2]
+                        muts.append((rev, "put", m[1], m[2]))
+                    elif m[1] in store:
+                        rev += 1
+                        del store[m[1]]
+                        muts.append((rev, "del", m[1], ""))
+                if name == "spyj":
+                    cur[op[1]] = {"w": op[1], "ops": []}
+                    members[op[1]] = []
+                self.feats.add("join_overlaps_event" if any(st.get("injected") or []) else "join_then_event")
             elif name in ("pub", "unpub", "expire", "ppause", "presume"):
                 # registrations made by the real Publisher: Grant numbers the leases 7001, 7002, ...; the key is
                 # <key>/<id>, or <key>/<lease> without WithId; a key belongs to the lease of its last Put; revoking
@@ -300,6 +326,20 @@ class ClusterView:
                 armed[op[1]] = ({"how": op[4]} if op[2] == "unsub" else {"mode": op[4], "excl": op[5], "how": op[6]})
             if name == "sub" and not st.get("err"):
                 join(op[1], op[2], op[3], op[4])
+            elif name == "subj" and not st.get("err"):
+                # the events of this step were delivered while the joiner was being replayed to: HEAD attaches the
+                # joiner first, so it receives them as well.  Rendered as "the events, then the join" with the calls
+                # the joiner actually received as the join's order (ProofsI.join_overlapping_new_registrations); its
+                # notifications of this step (an interleaving of replay and events) are not compared.
+                so = st["subs"].get(str(op[1]))
+                if so is not None:
+                    so["notes"] = []
+                    th = cur[op[2]]
+                    order = [(self.kid(r[1]), num(r[2])) for r in so["rec"] if r[0] == "add"]
+                    so["rec"] = []
+                    th["ops"].append({"d": "join", "x": op[3], "order": order, "jn": 1})
+                    members[op[2]].append(op[1])
+                    submode[op[1]] = "rec"
             elif name == "unsub":
                 leave(op[1])
             elif name == "unspy":
@@ -408,8 +448,9 @@ class C13(Property):
         self.kube_replaces = replaces
         self.flags = dict(regen_constants.flags)
         return ["C13Consts.v %s: subsetSize=%s kubeOnAddReplaces=%s reloadWaitsOutsideLock=%s watchDoneBoundToGeneration=%s "
-                "setupWatchNeverCreatesWatcher=%s" % ("rewritten" if changed else "unchanged", val, replaces,
-                                                      self.flags["reload_outside"], self.flags["done_bound"], not self.flags["setup_creates"])]
+                "setupWatchNeverCreatesWatcher=%s joinReplaysUnderLock=%s" % ("rewritten" if changed else "unchanged", val, replaces,
+                                                      self.flags["reload_outside"], self.flags["done_bound"], not self.flags["setup_creates"],
+                                                      self.flags["join_atomic"])]
 
     def extra(self, ctx):
         with concurrent.futures.ThreadPoolExecutor(max_workers=3) as ex:
@@ -492,6 +533,25 @@ class C13(Property):
                                   "of the key does not see the registered values (expected [v1 v2 v3], then [v1 v2 v3 v4])", "replay": r})
         else:
             ctx.notes.append("unmonitor monitor (Close during load): the next subscriber sees %s" % r["valuesB2"])
+        # 4. a second subscriber joins a watched key while the watch goroutine handles an event about a known key
+        #    that has not been replayed to it yet (delete / new value): with the replay outside the cluster lock the
+        #    older replayed value overwrites the event (finding C13/join-replay-overtakes-event,
+        #    pending/C13-join-atomic.diff); skipped and noted as long as the source has that shape
+        if not getattr(self, "flags", {}).get("join_atomic"):
+            ctx.notes.append("join monitor skipped: Registry.Monitor replays the known values outside the cluster lock (finding "
+                             "C13/join-replay-overtakes-event, pending/C13-join-atomic.diff)")
+            return fails
+        rc, out, rs = vlib.go_test_overlay("./core/discov", files, "TestVerifC13JoinDuringEvent$", [], tag="c13rl4", timeout=120)
+        if rc != 0 or len(rs) != 1:
+            raise ExecError("c13 join monitor rc=%s: %s" % (rc, out[-1500:]))
+        r = rs[0]
+        bad = [v for v in ("delete", "change") if not (r.get(v, {}).get("quiet") and r[v]["joiner"] == r[v]["first"] ==
+                                                        sorted(x[1] for x in r[v]["state"]["svc/|p"]["values"]))]
+        if bad:
+            fails.append({"what": "a subscriber joined a watched key while an event about a known key was handled: its Values() "
+                                  "differs from the registrations at the quiescent point (%s)" % ", ".join(bad), "replay": r})
+        else:
+            ctx.notes.append("join monitor (event during the replay of a join): joiner = first subscriber = registry in both variants")
         return fails
 
     def _extra_kube(self, ctx):
@@ -554,6 +614,22 @@ class C13(Property):
                      ["hook", 2, "sub", 3, "rec", False, "in"], ["put", "svc/k5", "v5"], ["sub", 4, 0, "rec", False],
                      ["pause"], ["put", "svc/k6", "v6"], ["del", "svc/k2"], ["hook", 2, "unsub", 2, "in"], ["reconnect"], ["resume"],
                      ["put", "svc/k7", "v7"]]},
+            # joins that overlap registrations: from inside the joiner's first replayed OnAdd new keys are registered
+            # (a further listener of a watched key, exclusive or not, and the first listener of a key)
+            {"kind": "cluster", "base": 1, "eps": 1, "watchers": [{"key": "svc", "exact": False}, {"key": "svc/a", "exact": False}],
+             "ops": [["put", "svc/k0", "v0"], ["put", "svc/a/k0", "v1"], ["spy", 0], ["sub", 0, 0, "rec", False],
+                     ["subj", 1, 0, False, [["put", "svc/k1", "v2"]]],
+                     ["subj", 2, 0, True, [["put", "svc/k2", "v3"], ["put", "svc/k3", "v2"]]],
+                     ["spyj", 1, [["put", "svc/a/k1", "v5"]]], ["subj", 3, 1, False, [["put", "svc/a/k2", "v6"]]],
+                     ["put", "svc/k1", "v7"], ["del", "svc/k2"]]},
+        ] + ([
+            # a subscriber created from inside a callback during a TWO-event watch response must get the second event
+            # (only with the repaired join: listeners taken per event)
+            {"kind": "cluster", "base": 1, "eps": 1, "watchers": [{"key": "svc", "exact": False}],
+             "ops": [["put", "svc/k0", "v0"], ["spy", 0], ["sub", 0, 0, "rec", False], ["sub", 1, 0, "rec", False], ["pause"],
+                     ["put", "svc/k1", "v1"], ["put", "svc/k2", "v2"], ["hook", 0, "sub", 2, "rec", False, "in"], ["resume"],
+                     ["put", "svc/k3", "v3"]]},
+        ] if getattr(self, "flags", {}).get("join_atomic") else []) + [
             {"kind": "subset", "set": [V(i) for i in range(32)], "sub": 32},
             {"kind": "subset", "set": [V(i) for i in range(33)], "sub": 32},
             {"kind": "kube", "ops": [
@@ -675,6 +751,7 @@ class C13(Property):
         use_res = rng.random() < 0.3
         use_pub = rng.random() < 0.4
         use_hooks = rng.random() < 0.5
+        use_joins = rng.random() < 0.5
         nv = rng.randint(1, 4)
         keys = CL_KEYS if rng.random() < 0.6 else CL_KEYS[:4]
         neps = 2 if rng.random() < 0.3 else 1          # endpoints of the etcd cluster; subscribers may list them in either order
@@ -833,6 +910,33 @@ class C13(Property):
             else:
                 members[w].remove(target)
 
+        def join_overlap():
+            # a subscriber joins WHILE registrations are made: from inside the joiner's first replayed OnAdd (Monitor's
+            # replay for a further listener, monitor's load for the first listener of a key) new keys are registered
+            # and the watch goroutine handles them before the join goes on
+            if st.get("paused"):
+                return mut()
+            w = rng.randrange(nw)
+            wk = watchers[w]
+            absent = [k for k in keys if cl_in_range(k, wk["key"], wk["exact"]) and k not in store]
+            if not absent:
+                return mut()
+            ms = []
+            for k in rng.sample(absent, min(len(absent), rng.choice([1, 1, 2]))):
+                v = val(k)
+                store[k] = v
+                st["rev"] += 1
+                ms.append(["put", k, v])
+            if w in spied:
+                ops.append(["subj", st["sid"], w, rng.random() < 0.4, ms])
+                modes[st["sid"]] = "rec"
+                members[w].append(st["sid"])
+                st["sid"] += 1
+            else:
+                ops.append(["spyj", w, ms])
+                spied.add(w)
+                members[w] = []
+
         def takeover():
             # what "exclusive" is about: a second key registers a value that is already served, then goes away
             cand = [o[2] for o in ops if o[0] == "sub" and o[4] and o[3] == "api" and any(o[1] in l for l in members.values())]
@@ -860,6 +964,8 @@ class C13(Property):
                 takeover()
             elif r >= 0.20 and r < 0.34 and use_hooks:
                 during_dispatch()
+            elif r >= 0.34 and r < 0.42 and use_joins:
+                join_overlap()
             elif r < 0.20 and use_pub:
                 publish()
             elif r < 0.36:
@@ -927,6 +1033,23 @@ class C13(Property):
                 if o[1] not in spied or members[o[1]]:
                     return False
                 spied.discard(o[1])
+            elif n == "spyj":
+                if o[1] in spied or not 0 <= o[1] < nw or paused:
+                    return False
+                spied.add(o[1])
+                members[o[1]] = []
+                for m in o[2]:
+                    rev += 1
+                    store[m[1]] = m[2]
+            elif n == "subj":
+                if o[2] not in spied or o[1] in sids or paused:
+                    return False
+                sids.add(o[1])
+                modes[o[1]] = "rec"
+                members[o[2]].append(o[1])
+                for m in o[4]:
+                    rev += 1
+                    store[m[1]] = m[2]
             elif n == "sub":
                 if o[2] not in spied or o[1] in sids or (o[3] == "res" and case["watchers"][o[2]]["exact"]):
                     return False
@@ -941,7 +1064,7 @@ class C13(Property):
             elif n == "hook":
                 ws = [w for w, l in members.items() if o[1] in l]
                 nxt = case["ops"][idx + 1][0] if idx + 1 < len(case["ops"]) else ""
-                if not ws or modes.get(o[1]) == "res" or paused and nxt != "reconnect" or nxt not in ("put", "reconnect"):
+                if not ws or modes.get(o[1]) == "res" or paused and nxt not in ("reconnect", "resume") or nxt not in ("put", "del", "reconnect", "resume"):
                     return False
                 if o[2] == "unsub":
                     if o[3] not in members[ws[0]]:
@@ -1186,8 +1309,8 @@ class C13(Property):
             return self._value_change(case["ops"])
         if k == "cluster":
             names = set(o[0] for o in case["ops"])
-            return (self._value_change(case["ops"]) and "sub" in names and
-                    bool(names & {"closewatch", "cancelwatch", "compact", "reconnect", "geterr"}))
+            return (self._value_change(case["ops"]) and bool(names & {"sub", "subj"}) and
+                    bool(names & {"closewatch", "cancelwatch", "compact", "reconnect", "geterr", "hook", "subj", "spyj"}))
         if k in ("discov", "resolver"):
             ops = (case.get("pre") or []) + case["ops"]
             return self._value_change(ops) and any(o[0] == "reload" for o in ops)
@@ -1208,6 +1331,7 @@ class C13(Property):
         if k == "cluster":
             fs += ["cluster_op_" + x for x in sorted(set(o[0] for o in case["ops"]))]
             fs += ["cluster_sub_%s%s" % (o[3], "_excl" if o[4] else "") for o in case["ops"] if o[0] == "sub"]
+            fs += ["cluster_subj%s" % ("_excl" if o[3] else "") for o in case["ops"] if o[0] == "subj"]
             fs.append("cluster_watchers=%d" % len(case["watchers"]))
             fs.append("cluster_endpoints=%d" % (case.get("eps") or 1))
             fs.append("cluster_base_rev=%s" % ("1" if (case.get("base") or 1) == 1 else "2" if case["base"] == 2 else "large"))
